@@ -198,8 +198,11 @@ def run(ctx):
         cols = [[m[c] for _, _, m in variants] for c in range(4)]
         per = {}
         for method, sm, mv in G.VARIANTS:
+            # the rotated / mirrored copies form one batch; the library gets it as a C-ordered vector or, with the
+            # same values, split over three leading dimensions in Fortran order / as a strided slice
             case = {"op": "est", "method": method, "sm": sm, "dirs": G.fl(dirs), "shape": [len(variants)],
-                    "a1": G.fl(cols[0]), "b1": G.fl(cols[1]), "a2": G.fl(cols[2]), "b2": G.fl(cols[3])}
+                    "a1": G.fl(cols[0]), "b1": G.fl(cols[1]), "a2": G.fl(cols[2]), "b2": G.fl(cols[3]),
+                    "layout": G.gen_layout(rng, len(variants))}
             lines = []
             if mv == "newton":
                 for _, _, m in variants:
